@@ -4,11 +4,20 @@ package fault
 
 import (
 	"errors"
+	"fmt"
 	"io"
 )
 
 // ErrInjected is the non-EOF error delivered by failing readers and writers.
 var ErrInjected = errors.New("injected I/O fault")
+
+// Other non-EOF errors a failing stream may deliver: one that is not io.EOF but has io.EOF in
+// its Unwrap chain (a transport adding context to every error), and io.ErrUnexpectedEOF (what
+// truncated compressed streams report).
+var (
+	ErrWrapsEOF = fmt.Errorf("connection reset while reading: %w", io.EOF)
+	ErrKinds    = []error{ErrInjected, ErrWrapsEOF, io.ErrUnexpectedEOF}
+)
 
 // Chunked delivers data in the listed chunk sizes (applied cyclically, each at least 1 byte
 // and at most len(p)); with EOFWithData the final bytes arrive together with io.EOF.
@@ -54,9 +63,17 @@ type FailAfter struct {
 	Forever  bool
 	WithData bool
 	Chunk    int
+	Err      error // the error to deliver (default ErrInjected)
 	pos      int
 	failed   bool
 	Calls    int
+}
+
+func (f *FailAfter) err() error {
+	if f.Err != nil {
+		return f.Err
+	}
+	return ErrInjected
 }
 
 func (f *FailAfter) Read(p []byte) (int, error) {
@@ -67,7 +84,7 @@ func (f *FailAfter) Read(p []byte) (int, error) {
 			return 0, io.EOF
 		}
 		f.failed = true
-		return 0, ErrInjected
+		return 0, f.err()
 	}
 	if len(p) == 0 {
 		return 0, nil
@@ -80,7 +97,7 @@ func (f *FailAfter) Read(p []byte) (int, error) {
 	f.pos += n
 	if f.WithData && f.pos == k {
 		f.failed = true
-		return n, ErrInjected
+		return n, f.err()
 	}
 	return n, nil
 }
